@@ -1552,7 +1552,7 @@ class Data(BaseCartesianData):
             self.hub.broadcast(msg)
 
         for subset in self.subsets:
-            clear_cache(subset.subset_state.to_mask)
+            _clear_mask_cache(subset.subset_state)
 
     def update_values_from_data(self, data):
         """
@@ -1624,7 +1624,7 @@ class Data(BaseCartesianData):
             self.hub.broadcast(msg)
 
         for subset in self.subsets:
-            clear_cache(subset.subset_state.to_mask)
+            _clear_mask_cache(subset.subset_state)
 
     # The following are methods for accessing the data in various ways that
     # can be overriden by subclasses that want to improve performance.
@@ -2090,6 +2090,16 @@ class Data(BaseCartesianData):
         warnings.warn('Data.visible_components is deprecated', UserWarning)
         return [cid for cid, comp in self._components.items()
                 if not isinstance(comp, CoordinateComponent) and cid.parent is self]
+
+
+def _clear_mask_cache(subset_state):
+    # Clear the memoized masks of a subset state and of the states nested in it
+    clear_cache(subset_state.to_mask)
+    children = [getattr(subset_state, 'state1', None), getattr(subset_state, 'state2', None)]
+    children.extend(getattr(subset_state, 'states', ()))
+    for child in children:
+        if child is not None:
+            _clear_mask_cache(child)
 
 
 @contract(i=int, ndim=int)
